@@ -57,7 +57,7 @@ def run(ctx):
     # necessary here too and are reported under this property as well
     from .common import RuleProxy
     from . import C02
-    C02.run(RuleProxy(ctx, {'C02-1.min_speed': 'C03-6.profile', 'C02-2.seed': 'C03-6.profile', 'C02-3.add_speeds': 'C03-6.profile', 'C02-4.applies': 'C03-6.profile', 'C02-5.sites': 'C03-6.profile', 'C02-6.search': 'C03-6.profile', 'C02-7.select': 'C03-6.profile'}))
+    C02.run(RuleProxy(ctx, {'C02-1.min_speed': 'C03-6.profile', 'C02-2.seed': 'C03-6.profile', 'C02-3.add_speeds': 'C03-6.profile', 'C02-4.applies': 'C03-6.profile', 'C02-5.sites': 'C03-6.profile', 'C02-6.search': 'C03-6.profile', 'C02-7.select': 'C03-6.profile', 'C02-9.guards': 'C03-6.profile'}))
     # the braking curve is built by evaluating the resistance model backwards along the path: its front/rear index freshness, the
     # cached index search and the force formulas (C07) are necessary here too
     from . import C07
